@@ -298,8 +298,24 @@ func classifyC06(r *rig, res *scnResult, fs []nodeFinal, best *nodeFinal, t *tre
 		// PushGetHeadersMsg's duplicate filter, so nothing was requested after the inv.
 		// an inv that carries several blocks (already stored ones first, the new ones last) must be followed up for its
 		// LAST block entry (searchForFinalBlock); nothing requested after such an inv although its last block is unknown
+		// (only when the manager listens to that peer: it is the sync peer, or the service is current — tip at or above
+		// the last checkpoint, timestamps are fresh; otherwise the inv is ignored by design / finding F4c)
+		maxCp := 0
+		for _, c := range s.Cps {
+			if r.tree.height[c] > maxCp {
+				maxCp = r.tree.height[c]
+			}
+		}
+		stSnap := r.sm.VerifSnapshot()
 		for _, f := range fs {
 			if !f.Honest || !f.Reachable {
+				continue
+			}
+			listens := tipHeightOf(t, res.TipHash) >= int64(maxCp)
+			if lp := r.lpeers[f.ID]; lp != nil && stSnap.HasSyncPeer && lp.p.ID() == stSnap.SyncPeerID {
+				listens = true
+			}
+			if !listens {
 				continue
 			}
 			for k, e := range f.Hist {
@@ -819,7 +835,7 @@ func reportScn(c *Ctx, res *scnResult, rigErrs *int) {
 }
 
 func runC06(c *Ctx) error {
-	c.R.Rule = "scenario = block tree (linear or forked, 5..60 headers quick / up to thousands thorough) x 1..3 scripted conformant nodes (full, lagging, other branch; cap 1/2/7/2000; inbound or outbound; close/stall at a message index) x engine {legacy, experimental} x checkpoints {disabled, one, several, last at tip, none(exp)} x initial store {genesis, prefix, prefix+stale fork, lighter branch} x announcements {inv, headers; one or several nodes} x scheduling {serial with per-event trace comparison against the Lean model, free-running goroutines with seeded delays}; non-trivial = more than one request round or more than one peer or an announcement / peer loss; accepted (counted, not failed) per the property's proviso: the best peer's last, cap-limited answer brought only known headers, nothing was requested from it afterwards and it has not announced since"
+	c.R.Rule = "scenario = block tree (linear or forked, 5..60 headers quick / up to thousands thorough) x 1..3 scripted conformant nodes (full, lagging, other branch; cap 1/2/7/2000; inbound or outbound; close/stall at a message index) x engine {legacy, experimental} x checkpoints {disabled, one, several, last at tip, none(exp)} x initial store {genesis, prefix, prefix+stale fork, lighter branch} x announcements {inv, one inv carrying announced + new blocks and tx entries, headers; one or several nodes} x scheduling {serial with per-event trace comparison against the Lean model, free-running goroutines with seeded delays}; non-trivial = more than one request round or more than one peer or an announcement / peer loss; accepted (counted, not failed) per the property's proviso: the best peer's last, cap-limited answer brought only known headers, nothing was requested from it afterwards and it has not announced since"
 	l := newSyncModel(c)
 	defer l.Close()
 	if c.Replay != "" {
